@@ -90,7 +90,7 @@ def run_one(v, case, scratch, i):
         try:
             with quiet():
                 p_old = mapgen.build_pipeline(case)
-                p_old.map(_variant(mapgen.make_inputs(case), "~old"), run_folder=folder, internal_shapes=mapgen.internal_shapes_arg(case),
+                p_old.map(mapgen.variant_inputs(mapgen.make_inputs(case), "~old"), run_folder=folder, internal_shapes=mapgen.internal_shapes_arg(case),
                           parallel=False, storage="file_array")
                 load_xarray_dataset(run_folder=folder)
             v.count("folders_reused_after_another_run")
@@ -232,7 +232,7 @@ def run_case(desc):
     keys, sample = [], None
     with tmpdir("c19-") as scratch:
         for i in range(desc["start"], desc["start"] + desc["n"]):
-            case = mapgen.case_from_seed(desc["seed"], i)
+            case = mapgen.case_from_seed(desc["seed"], i, allow_int_arrays=(i % 2 == 0))
             v.hit(mapgen.classes(case))
             nt = run_one(v, case, scratch, i)
             if nt:
